@@ -542,6 +542,9 @@ func Explore(prog *ssa.Program, entry *ssa.Function, cfg Config) (*Report, error
 				st.Time += sv.Stats.Time
 				st.ValueTime += sv.Stats.ValueTime
 				st.PopTime += sv.Stats.PopTime
+				if st.FirstError == "" {
+					st.FirstError = sv.Stats.FirstError
+				}
 				if sv.Stats.MaxQuery > st.MaxQuery {
 					st.MaxQuery = sv.Stats.MaxQuery
 				}
@@ -553,7 +556,7 @@ func Explore(prog *ssa.Program, entry *ssa.Function, cfg Config) (*Report, error
 	close(errs)
 	ex.rep.Wall = time.Since(t0)
 	if ex.rep.Stats.Errors > 0 {
-		ex.rep.Inconclusive[fmt.Sprintf("solver reported %d (error ...) lines", ex.rep.Stats.Errors)]++
+		ex.rep.Inconclusive[fmt.Sprintf("solver reported %d (error ...) lines, first: %s", ex.rep.Stats.Errors, ex.rep.Stats.FirstError)]++
 	}
 	return &ex.rep, nil
 }
